@@ -39,7 +39,7 @@ def run(ctx):
             mus = list(range(M)) if M <= 8 else sorted({0, 1, M - 1, M // 2, rng.randrange(M), rng.randrange(M)})
             a_units = min(2**40 // (20 * M), 2**35)          # Msize*alpha = 1/20
             for mu in mus:
-                line, r = E.lib(1, [n] + key + [enc(mu, M)], sd + n * 131 + mu, rng.randrange(30), a_units, 0)
+                line, r = E.lib(1, [n] + key + [enc(mu, M)], sd + n * 131 + mu, rng.randrange(30), a_units, rng.choice([0, 1, 2, 3, 4]))   # last: noise range announced by the parameter object (independent of alpha)
                 ctx.count(('lwe-enc', n, M, mu))
                 if r is None: ctx.report('lwe-encrypt-crash', 'lweSymEncrypt n=%d died' % n, {'case': line[:10000]}); continue
                 c = r['res']; g = split_draws(r['draws'])[2][0]
